@@ -81,6 +81,15 @@ M('c16d-yield-without-intx-test', 'C16', 'break', TX,
 M('c16d-flag-set-for-407', 'C16', 'break', RS,
   '            if (connp->in_status != HTP_STREAM_ERROR)\n                connp->in_status = HTP_STREAM_DATA;\n        } else {',
   '            if (connp->in_status != HTP_STREAM_ERROR)\n                connp->in_status = HTP_STREAM_DATA;\n            connp->out_data_other_at_tx_end = 1;\n        } else {', 'C16.d')
+M('c16g-100-continue-keeps-progress', 'C16', 'break', RS,
+  '            connp->out_state = htp_connp_RES_LINE;\n            connp->out_tx->response_progress = HTP_RESPONSE_LINE;\n            connp->out_tx->seen_100continue++;',
+  '            connp->out_state = htp_connp_RES_LINE;\n            connp->out_tx->seen_100continue++;', 'C16.g')
+M('c16g-reset-before-state-keep', 'C16', 'keep', RS,
+  '            connp->out_state = htp_connp_RES_LINE;\n            connp->out_tx->response_progress = HTP_RESPONSE_LINE;\n            connp->out_tx->seen_100continue++;',
+  '            connp->out_tx->response_progress = HTP_RESPONSE_LINE;\n            connp->out_tx->seen_100continue++;\n            connp->out_state = htp_connp_RES_LINE;')
+M('c16g-reset-to-headers', 'C16', 'break', RS,
+  '            connp->out_state = htp_connp_RES_LINE;\n            connp->out_tx->response_progress = HTP_RESPONSE_LINE;\n            connp->out_tx->seen_100continue++;',
+  '            connp->out_state = htp_connp_RES_LINE;\n            connp->out_tx->response_progress = HTP_RESPONSE_HEADERS;\n            connp->out_tx->seen_100continue++;', 'C16.g')
 M('c16d-keep-negated', 'C16', 'keep', TX,
   '    if (!hybrid_mode) {\n        // Check if the inbound parser is waiting on us.',
   '    if (hybrid_mode == 0) {\n        // Check if the inbound parser is waiting on us.')
@@ -443,3 +452,14 @@ M('c01d-remove-only-in-tx', 'C01', 'break', CP, "    if (connp->out_tx == tx) {\
 M('c01e-use-tx-after-finalize', 'C01', 'break', TX, "    // At this point, tx may no longer be valid.\n\n    connp->in_tx = NULL;", "    // At this point, tx may no longer be valid.\n\n    tx->connp->in_tx = NULL;", 'C01.e')
 M('c01g-new-unguarded-arithmetic', 'C01', 'break', RQ, "    if (connp->in_data_receiver_hook == NULL) return HTP_OK;\n\n    htp_status_t rc = htp_connp_req_receiver_send_data(connp, 1 /* last */);", "    if (connp->in_data_receiver_hook == NULL) return HTP_OK;\n    connp->in_next_byte = *(connp->in_current_data + connp->in_current_receiver_offset);\n\n    htp_status_t rc = htp_connp_req_receiver_send_data(connp, 1 /* last */);", 'C01.g')
 M('c01h-d25-guard-removed', 'C01', 'break', MP, "                if (pos >= len) break;\n\n                if (data[pos] == '-') {\n                    // Found one dash, now go to check the next position.", "                if (data[pos] == '-') {\n                    // Found one dash, now go to check the next position.", 'C01.h')
+
+# ---------------- C06.f
+M('c06f-res-line-end-counts-lf-only', 'C06', 'break', RS,
+  '        connp->out_tx->response_message_len++;\n\n        if (connp->out_next_byte == LF) {\n            connp->out_state = htp_connp_RES_BODY_CHUNKED_LENGTH;',
+  '        if (connp->out_next_byte == LF) {\n            connp->out_tx->response_message_len++;\n            connp->out_state = htp_connp_RES_BODY_CHUNKED_LENGTH;', 'C06.f')
+M('c06f-req-line-end-batched', 'C06', 'break', RQ,
+  '    for (;;) {\n        IN_NEXT_BYTE_OR_RETURN(connp);\n\n        connp->in_tx->request_message_len++;\n\n        if (connp->in_next_byte == LF) {',
+  '    int64_t start_offset = connp->in_current_read_offset;\n    for (;;) {\n        IN_NEXT_BYTE_OR_RETURN(connp);\n\n        if (connp->in_next_byte == LF) {\n            connp->in_tx->request_message_len += connp->in_current_read_offset - start_offset;', 'C06.f')
+M('c06f-account-first-keep', 'C06', 'keep', RQ,
+  '    connp->in_current_read_offset += bytes_to_consume;\n    connp->in_current_consume_offset += bytes_to_consume;\n    connp->in_stream_offset += bytes_to_consume;\n    connp->in_tx->request_message_len += bytes_to_consume;\n    connp->in_chunked_length -= bytes_to_consume;',
+  '    connp->in_tx->request_message_len += bytes_to_consume;\n    connp->in_current_read_offset += bytes_to_consume;\n    connp->in_current_consume_offset += bytes_to_consume;\n    connp->in_stream_offset += bytes_to_consume;\n    connp->in_chunked_length -= bytes_to_consume;')
